@@ -22,8 +22,12 @@ theorem col_getters_read_attr (wo : WidthOps W) (cols : List (Col W)) (c : Int) 
     isColumnHidden cols c = .ok (colAttr wo cols c).hidden ∧
     getColumnStyle cols c = .ok (colAttr wo cols c).style ∧
     getColumnWidth wo cols c =
-      .ok (if (colAttr wo cols c).hidden then wo.zero else (colAttr wo cols c).width) := by
-  exact getters_attr wo cols c hv
+      .ok (if (colAttr wo cols c).hidden then wo.zero else (colAttr wo cols c).width) ∧
+    modelGetColumnStyle cols c = (colAttr wo cols c).style := by
+  obtain ⟨h1, h2, h3, h4⟩ := getters_attr wo cols c hv
+  refine ⟨h1, h2, h3, h4, ?_⟩
+  unfold modelGetColumnStyle colAttr
+  cases findCol cols c <;> rfl
 
 /-- the row getters report exactly the attributes of `rowAttr` -/
 theorem row_getters_read_attr (ho : HeightOps H) (rows : List (Row H)) (r : Int) (hv : validRow r = true) :
